@@ -53,6 +53,7 @@ DEFAULT_PROFILE = dict(
   max_nodes=40,
   anim_counts=(0, 0, 0, 1, 2, 3),
   initial_counts=(0, 0, 1, 2, 4),
+  nested_region_refs=True,  # region references below an element that already references a region
   time_density=4,       # one in `time_density` begin/end attributes is set
   body_divs=None,       # (lo, hi) number of div children of body, overriding fanout
   dense=True,           # containers usually have children and content is usually associated with a region
@@ -276,7 +277,7 @@ def _node(draw, ctx, kind, depth, regions, in_ruby_annot=False, plain_self=False
     p_ref = prof["region_refs"]
     if not assoc and prof["dense"]:
       p_ref = max(p_ref, {"body": 0.3, "div": 0.5, "p": 0.6}.get(kind, p_ref))
-    if regions and draw(st.integers(0, 99)) < 100 * p_ref:
+    if regions and draw(st.integers(0, 99)) < 100 * p_ref and (prof["nested_region_refs"] or not assoc):
       n["region"] = draw(st.sampled_from(regions))
   if kind == "ruby" and regions and not assoc and n["region"] is None and not prof["ruby_timed"]:
     n["region"] = draw(st.sampled_from(regions))   # an unassociated ruby loses its annotation text: ttconv finding I-3
